@@ -52,48 +52,57 @@ vars == <<fsvars, cvars>>
 Ws == {9, 10, 11, 12, 13, 32}
 Digit == 48..57
 
-Range(s) == {s[i] : i \in 1..Len(s)}
+Range(s0) == Bind(s0, LAMBDA s : {s[i] : i \in 1..Len(s)})
 
-Trim(s) ==
+\* TLC passes operator arguments and LET definitions unevaluated and, in an action, evaluates
+\* them again at every use: every operator below that looks at its argument more than once
+\* binds it to its VALUE first (Bind, Bytes.tla).
+Trim(s0) == Bind(s0, LAMBDA s :
   IF \A i \in 1..Len(s) : s[i] \in Ws THEN <<>>
   ELSE LET a == CHOOSE i \in 1..Len(s) : s[i] \notin Ws /\ \A j \in 1..(i - 1) : s[j] \in Ws
            b == CHOOSE i \in 1..Len(s) : s[i] \notin Ws /\ \A j \in (i + 1)..Len(s) : s[j] \in Ws
-       IN SubSeq(s, a, b)
+       IN SubSeq(s, a, b))
 
 RECURSIVE SortSet(_)
-SortSet(S) == IF S = {} THEN <<>>
-              ELSE LET m == CHOOSE x \in S : \A y \in S : x <= y IN <<m>> \o SortSet(S \ {m})
+SortSet(S0) == Bind(S0, LAMBDA S :
+  IF S = {} THEN <<>>
+  ELSE Bind(CHOOSE x \in S : \A y \in S : x <= y, LAMBDA m : <<m>> \o SortSet(S \ {m})))
 
 \* maximal runs of bytes outside D, in order (strings.FieldsFunc / StringTokenizer);
 \* with no delimiter the whole non-empty string is one token
-Tokens(s, D) ==
+Tokens(s0, D) == Bind(s0, LAMBDA s :
   LET n == Len(s)
-      starts == SortSet({i \in 1..n : s[i] \notin D /\ (i = 1 \/ s[i - 1] \in D)})
       EndOf(i) == CHOOSE j \in i..n : (\A m \in i..j : s[m] \notin D) /\ (j = n \/ s[j + 1] \in D)
-  IN [x \in 1..Len(starts) |-> SubSeq(s, starts[x], EndOf(starts[x]))]
+  IN Bind(SortSet({i \in 1..n : s[i] \notin D /\ (i = 1 \/ s[i - 1] \in D)}), LAMBDA starts :
+       [x \in 1..Len(starts) |-> SubSeq(s, starts[x], EndOf(starts[x]))]))
 
-TrimmedTokens(s, D) == LET t == Tokens(s, D) IN [i \in 1..Len(t) |-> Trim(t[i])]
+TrimmedTokens(s, D) == Bind(Tokens(s, D), LAMBDA t : [i \in 1..Len(t) |-> Trim(t[i])])
 NonEmpty(q) == SelectSeq(q, LAMBDA x : x # <<>>)
 
 ---------------------------------------------------------------------------
 (* decimal integers as digit strings: TLC never computes the number *)
 
-Unsigned(s) == IF Len(s) > 0 /\ s[1] \in {43, 45} THEN SubSeq(s, 2, Len(s)) ELSE s
-IsDecInt(s) == LET u == Unsigned(s) IN Len(u) > 0 /\ \A i \in 1..Len(u) : u[i] \in Digit
-IsNeg(s) == Len(s) > 0 /\ s[1] = 45
+Unsigned(s0) == Bind(s0, LAMBDA s : IF Len(s) > 0 /\ s[1] \in {43, 45} THEN SubSeq(s, 2, Len(s)) ELSE s)
+IsDecInt(s) == Bind(Unsigned(s), LAMBDA u : Len(u) > 0 /\ \A i \in 1..Len(u) : u[i] \in Digit)
+IsNeg(s0) == Bind(s0, LAMBDA s : Len(s) > 0 /\ s[1] = 45)
 \* magnitude without leading zeros ("0" for zero)
-Mag(s) == LET u == Unsigned(s)
-          IN IF \A i \in 1..Len(u) : u[i] = 48 THEN <<48>>
-             ELSE SubSeq(u, CHOOSE i \in 1..Len(u) : u[i] # 48 /\ \A j \in 1..(i - 1) : u[j] = 48, Len(u))
-MagLE(a, b) == Len(a) < Len(b) \/ (Len(a) = Len(b) /\ CmpU(a, b) <= 0)
+Mag(s) == Bind(Unsigned(s), LAMBDA u :
+            IF \A i \in 1..Len(u) : u[i] = 48 THEN <<48>>
+            ELSE SubSeq(u, CHOOSE i \in 1..Len(u) : u[i] # 48 /\ \A j \in 1..(i - 1) : u[j] = 48, Len(u)))
+\* a <= b for digit strings without leading zeros (lexicographic order decides between equal lengths)
+MagLE(a0, b) == Bind(a0, LAMBDA a :
+  \/ Len(a) < Len(b)
+  \/ /\ Len(a) = Len(b)
+     /\ \/ a = b
+        \/ \E i \in 1..Len(a) : a[i] < b[i] /\ \A j \in 1..(i - 1) : a[j] = b[j])
 MaxMag(bits) == IF bits = 32 THEN <<50,49,52,55,52,56,51,54,52,55>>                                 \* 2147483647
                 ELSE <<57,50,50,51,51,55,50,48,51,54,56,53,52,55,55,53,56,48,55>>                    \* 9223372036854775807
 MinMag(bits) == IF bits = 32 THEN <<50,49,52,55,52,56,51,54,52,56>>                                 \* 2147483648
                 ELSE <<57,50,50,51,51,55,50,48,51,54,56,53,52,55,55,53,56,48,56>>                    \* 9223372036854775808
 InIntRange(s, bits) == IF IsNeg(s) THEN MagLE(Mag(s), MinMag(bits)) ELSE MagLE(Mag(s), MaxMag(bits))
 \* canonical decimal text of the number s denotes
-Canon(s) == IF Mag(s) = <<48>> THEN <<48>> ELSE (IF IsNeg(s) THEN <<45>> ELSE <<>>) \o Mag(s)
-IsInt(s, bits) == IsDecInt(s) /\ InIntRange(s, bits)
+Canon(s) == Bind(Mag(s), LAMBDA m : IF m = <<48>> THEN <<48>> ELSE (IF IsNeg(s) THEN <<45>> ELSE <<>>) \o m)
+IsInt(s0, bits) == Bind(s0, LAMBDA s : IsDecInt(s) /\ InIntRange(s, bits))
 
 ---------------------------------------------------------------------------
 (* booleans and floats *)
@@ -113,11 +122,11 @@ FloatDfa(st, b) ==
     [] st = "exp" -> IF b \in Digit THEN "exp" ELSE "bad"
     [] OTHER -> "bad"
 RECURSIVE FloatRun(_, _, _)
-FloatRun(s, i, st) == IF i > Len(s) THEN st ELSE FloatRun(s, i + 1, FloatDfa(st, s[i]))
-IsDecFloat(s) == FloatRun(s, 1, "s0") \in {"int", "frac", "exp"}
+FloatRun(s, i, st) == IF i > Len(s) THEN st ELSE Bind(FloatDfa(st, s[i]), LAMBDA nx : FloatRun(s, i + 1, nx))
+IsDecFloat(s0) == Bind(s0, LAMBDA s : FloatRun(s, 1, "s0") \in {"int", "frac", "exp"})
 \* spellings strconv also accepts and this specification does not judge:
 \* hexadecimal floats, digit-separating underscores, inf/infinity/nan
-Exotic(s) == \E i \in 1..Len(s) : s[i] \in {88, 120, 80, 112, 95, 73, 105, 78, 110}
+Exotic(s0) == Bind(s0, LAMBDA s : \E i \in 1..Len(s) : s[i] \in {88, 120, 80, 112, 95, 73, 105, 78, 110})
 
 \* reference table: literal -> IEEE-754 binary32 bit pattern (<<>> = out of the binary32 range)
 FloatTab ==
@@ -148,7 +157,8 @@ ParseMap(L) == [k \in KeysOf(L) |-> L[LastIdx(L, k)].v]
 \* the value a key has in a file; an empty value and an absent key are the same to every getter
 Val(L, k) == IF k \in KeysOf(L) THEN ParseMap(L)[k] ELSE <<>>
 
-Merge(m, P) == [k \in DOMAIN m \cup DOMAIN P |-> IF k \in DOMAIN P THEN P[k] ELSE m[k]]
+\* P where it is defined, m elsewhere (@@ yields an evaluated function, not a lazy one)
+Merge(m, P) == P @@ m
 
 File == Content(Conf)
 Parsed == LET P == ParseMap(File)
@@ -159,18 +169,18 @@ Parsed == LET P == ParseMap(File)
 
 Raw(k) == IF k \in DOMAIN mem THEN Trim(mem[k]) ELSE <<>>
 GetValue(k) == Raw(k)
-GetValueDef(k, d) == IF Raw(k) = <<>> THEN d ELSE Raw(k)
-GetBoolean(k, d) == IF Raw(k) \in BoolTrue THEN TRUE ELSE IF Raw(k) \in BoolFalse THEN FALSE ELSE d
+GetValueDef(k, d) == Bind(Raw(k), LAMBDA r : IF r = <<>> THEN d ELSE r)
+GetBoolean(k, d) == Bind(Raw(k), LAMBDA r : IF r \in BoolTrue THEN TRUE ELSE IF r \in BoolFalse THEN FALSE ELSE d)
 \* d and the result are canonical decimal texts
-GetIntBits(k, d, bits) == IF IsInt(Raw(k), bits) THEN Canon(Raw(k)) ELSE d
+GetIntBits(k, d, bits) == Bind(Raw(k), LAMBDA r : IF IsInt(r, bits) THEN Canon(r) ELSE d)
 GetInt(k, d) == GetIntBits(k, d, 32)
 GetLong(k, d) == GetIntBits(k, d, 64)
 \* d and ret are binary32 bit patterns; literals outside the reference table are not judged
 FloatOK(k, d, ret) ==
-  LET r == Raw(k)
-  IN IF r \in DOMAIN FloatTab THEN ret = (IF FloatTab[r] = <<>> THEN d ELSE FloatTab[r])
+  Bind(Raw(k), LAMBDA r :
+     IF r \in DOMAIN FloatTab THEN ret = (IF FloatTab[r] = <<>> THEN d ELSE FloatTab[r])
      ELSE IF ~IsDecFloat(r) /\ ~Exotic(r) THEN ret = d
-     ELSE Len(ret) = 4
+     ELSE Len(ret) = 4)
 GetStringArray(k, d, D) == NonEmpty(TrimmedTokens(GetValueDef(k, d), D))
 \* the integers among the tokens
 GetIntSet(k, d, D) == {Canon(t) : t \in {x \in Range(TrimmedTokens(GetValueDef(k, d), D)) : IsInt(x, 32)}}
